@@ -46,6 +46,8 @@ def call(ex, e, st):
         from pyvc import library
         if name in library.FUNCS:
             return library.FUNCS[name](ex, e, st)
+        if name in ex.registry.lemmas:
+            return apply_lemma(ex, e, st, ex.registry.lemmas[name])
         c = ex.registry.contract_for(name)
         if c is not None:
             return call_contract(ex, e, st, name, c)
@@ -209,19 +211,12 @@ def b_map(ex, e, st):
 
 
 def map_index(ex, st, txt, src, line):
-    """list(map("ACGT".index, s)): ValueError when a character is foreign; otherwise codes[i] = position of s[i]."""
+    """list(map("ACGT".index, s)): ValueError when a character is foreign; otherwise the codes of s (a view of codes_of(array))."""
+    if txt != "ACGT":
+        raise U("index map over a table other than ACGT")
     foreign = z3.Not(src.forall(lambda v: z3.Or(*[v == ord(ch) for ch in txt])))
     ex.may_raise(st, "ValueError", foreign, f"index-of-each-char:{ex.ordinal('idxc')}", line)
-    out = fresh_seq("codes", "list", "int", n=src.n)
-    i = fresh("q")
-    look = iv(len(txt) - 1)
-    x = src.at(i)
-    for j in range(len(txt) - 2, -1, -1):
-        look = z3.If(x == ord(txt[j]), iv(j), look)
-    st.assume(z3.ForAll([i], z3.Implies(z3.And(0 <= i, i < src.n), out.arr[i] == look), patterns=[out.arr[i]]))
-    st.assume(out.forall(lambda v: z3.And(v >= 0, v < len(txt))))
-    out.codes_of = (src, txt)
-    return out
+    return speclang.codes_seq(ex, src)
 
 
 def b_divmod(ex, e, st):
@@ -343,7 +338,7 @@ def method(ex, e, st):
 
 # ---------------------------------------------------------------------------------------------- repository calls = contracts
 def call_contract(ex, e, st, name, c):
-    fn = ex.registry.function_ast(c["name"])
+    fn = ex.registry.function_ast(c.get("function", c["name"]))
     pnames = [a.arg for a in fn.args.args]
     args = kwargs_of(ex, e, st, pnames)
     defaults = dict(zip(pnames[len(pnames) - len(fn.args.defaults):], fn.args.defaults))
@@ -352,6 +347,11 @@ def call_contract(ex, e, st, name, c):
             if p not in defaults:
                 raise U(f"call of {name}: missing argument {p}")
             args[p] = ex.ev(defaults[p], st)
+    if c.get("dispatch"):
+        key = static_key(args, c["dispatch"]["param"])
+        if key not in c["dispatch"]:
+            raise U(f"call of {name}: cannot select a contract variant statically ({c['dispatch']['param']} is {key})")
+        c = ex.registry.contracts[c["dispatch"][key]]
     return apply_contract(ex, st, name, c, args, e.lineno)
 
 
@@ -400,6 +400,35 @@ def apply_contract(ex, st, name, c, args, line):
         return res
     finally:
         ex.old = saved_old
+
+
+def apply_lemma(ex, e, st, L):
+    """explicit instantiation of a PROVED lemma (ghost code only): its requires become obligations, its ensures assumptions."""
+    names = list(L["params"])
+    if len(e.args) != len(names):
+        raise U(f"lemma {L['name']} takes {len(names)} arguments")
+    ex.quiet += 1
+    try:
+        vals = [ex.ev(a, st.clone()) for a in e.args]
+    finally:
+        ex.quiet -= 1
+    k = ex.ordinal("lemma:" + L["name"])
+    t = st.clone()
+    t.env = dict(zip(names, vals))
+    for label, txt in L.get("requires", {}).items():
+        ex.quiet += 1
+        g = tobool(ex.ev(speclang.parse(txt), t.clone()))
+        ex.quiet -= 1
+        ex.prove(st, f"lemma{k}:{L['name']}:requires:{label}", g, e.lineno)
+        st.assume(g)
+    for label, txt in L.get("ensures", {}).items():
+        ex.quiet += 1
+        g = tobool(ex.ev(speclang.parse(txt), t.clone()))
+        ex.quiet -= 1
+        st.assume(g)
+    ex.lemmas_used = getattr(ex, "lemmas_used", set())
+    ex.lemmas_used.add(L["name"])
+    return NONE
 
 
 def static_key(args, key):
